@@ -223,7 +223,12 @@ def r5_link_syntax(ctx, rep):
     rep.ob("colon without item is not a reference", w is None, "", py.nloc(node), witness=w)
 
 
+def r6_item_anchors(ctx, rep):
+    c09.r8_anchor_targets_exist(ctx, rep)
+
+
 RULES = [
+    RuleSpec("C11.R6", r6_item_anchors, "[[owner:item]] targets: item anchors exist on the owner's page (shared with C09.R8)", floor=30),
     RuleSpec("C11.R1", r1_kinds, "documented kinds are the implemented kinds", floor=50),
     RuleSpec("C11.R2", r2_lookup_order, "lookup order and protected attempts", floor=8),
     RuleSpec("C11.R3", r3_priority, "code spans win", floor=2),
